@@ -10,7 +10,7 @@ LEVEL = "model_checking"
 
 
 def cfg(cap, maxops, gen):
-    s = 'SPECIFICATION Spec\nCONSTANTS\n Cap = %d\n MaxOps = %d\n Suites = {"CBC", "GCM"}\n Names = {"a", "b"}\n' % (cap, maxops)
+    s = 'SPECIFICATION Spec\nCONSTANTS\n Cap = %d\n MaxOps = %d\n Suites = {"CBC", "GCM"}\n Names = {"a", "b"}\n Versions = {11, 12}\n' % (cap, maxops)
     if gen:
         s += "CONSTRAINT Emit\n"
     else:
@@ -43,13 +43,13 @@ def run(ctx):
     # all histories connect, X, Y, connect (every pair of changes between two connections), exhaustively by BFS
     directed = []
     with open(os.path.join(d, "res_dir.cfg"), "w") as f:
-        f.write('SPECIFICATION Spec\nCONSTANTS\n Cap = 1\n MaxOps = 4\n Suites = {"CBC", "GCM"}\n Names = {"a"}\nCONSTRAINT Emit\n')
+        f.write('SPECIFICATION Spec\nCONSTANTS\n Cap = 1\n MaxOps = 4\n Suites = {"CBC", "GCM"}\n Names = {"a"}\n Versions = {11, 12}\nCONSTRAINT Emit\n')
     r = ctx.tlc("TLCPResume", "res_dir.cfg", workers=1, timeout=1500, count=False)
     for b in markers(r["out"], "BEH"):
         if b[0]["op"] == "connect" and b[-1]["op"] == "connect":
             directed.append((1, b))
     with open(os.path.join(d, "res_dir.cfg"), "w") as f:
-        f.write('SPECIFICATION Spec\nCONSTANTS\n Cap = 1\n MaxOps = 3\n Suites = {"CBC", "GCM"}\n Names = {"a"}\nCONSTRAINT Emit\n')
+        f.write('SPECIFICATION Spec\nCONSTANTS\n Cap = 1\n MaxOps = 3\n Suites = {"CBC", "GCM"}\n Names = {"a"}\n Versions = {11, 12}\nCONSTRAINT Emit\n')
     r = ctx.tlc("TLCPResume", "res_dir.cfg", workers=1, timeout=1500, count=False)
     for b in markers(r["out"], "BEH"):
         if b[0]["op"] == "connect" and b[-1]["op"] == "connect":
@@ -71,7 +71,9 @@ def run(ctx):
     chosen = directed + rich[:lim[0]] + rest[:lim[1]]
     hist = []
     for i, (cap, b) in enumerate(chosen):
-        hist.append({"proto": "gm" if i % 3 != 2 else "tls", "cap": cap, "ops": b})
+        # histories that switch the client's protocol version need a multi-version protocol: TLS
+        tls_only = any(o["op"] == "vers" or o.get("vers") == 11 for o in b)
+        hist.append({"proto": "tls" if tls_only or i % 3 == 2 else "gm", "cap": cap, "ops": b})
     # the abstract Tamper at every byte of the ticket (thorough) / a seeded sample: connect, tamper(byte), connect
     tam = []
     base = [{"op": "connect", "name": "a", "offered": False, "expect": "full", "sid": 1, "suite": "CBC", "hascert": False}]
